@@ -37,6 +37,20 @@ def logprob_matrix(draw, min_T=1, max_T=8, min_C=2, max_C=6, families=None, big_
         C = draw(st.integers(11, 14))       # more than ten symbols (two-digit indices)
         T = min(T, 3)
     blank = C - 1
+    if big_alphabet and draw(st.integers(0, 11)) == 0:
+        # an alphabet of realistic size (130-300 classes, more than fit into a signed byte): a few frames whose mass sits
+        # on a small pool of symbols (so that repeats and joins occur) over a -30 floor
+        C = draw(st.integers(130, 300))
+        T = draw(st.integers(1, 4))
+        blank = C - 1
+        pool = [draw(st.integers(0, C - 2)), draw(st.integers(128, C - 2)), draw(st.integers(0, C - 2)), blank]
+        rows = []
+        for _ in range(T):
+            r = [-30.0] * C
+            for _ in range(draw(st.integers(1, 3))):
+                r[draw(st.sampled_from(pool))] = -draw(st.floats(0.0, 3.0, allow_nan=False, width=32))
+            rows.append(r)
+        return "huge_alphabet", _log_softmax(rows)
     if long_lines and draw(st.integers(0, 7)) == 0:
         # a line of realistic length: a drawn path with runs and blanks, peaky rows with occasional competitors
         T = draw(st.integers(40, 160))
